@@ -169,8 +169,8 @@ def run_case(case: dict) -> dict:
         licpath.setdefault("-", "-")
         ev["licpath"] = licpath
         # lint-file on subsets
-        allf = sorted(str(x.relative_to(root)) for x in root.rglob("*")
-                      if x.is_file() and x.resolve().is_relative_to(root.resolve()))
+        # (every file of the tree, also symbolic links that point out of it: a link names nothing, wherever it points)
+        allf = sorted(str(x.relative_to(root)) for x in root.rglob("*") if x.is_file())
         dirs = sorted({str(Path(f).parent) for f in allf if "/" in f})
         subsets = [[f] for f in rnd.sample(allf, min(3, len(allf)))]
         subsets.append(allf)
@@ -185,6 +185,10 @@ def run_case(case: dict) -> dict:
                 name = f"zz link {n}{Path(tgt).suffix}"
                 os.symlink(tgt, root / name)
                 lk.append(name)
+            # ... and one that points out of the project
+            (d / "outside-target.txt").write_text("not part of the project\n")
+            os.symlink(str(d / "outside-target.txt"), root / "zz link out.txt")
+            lk.append("zz link out.txt")
             subsets.append(lk[:1])
             subsets.append(lk + rnd.sample(allf, min(2, len(allf))))
             subsets.append(lk[-1:])
@@ -218,7 +222,7 @@ def run(ctx: core.Ctx) -> int:
         "labels of sections / line messages are opaque: agreement = equality of the families of item sets, and as many "
         "labels as non-empty categories",
         "expected sets are derived from the same state's `lint --json` (whose own correctness is C01's subject)",
-        "lint-file is given files inside the root only (a path resolving outside is answered with a usage error)",
+        "lint-file is given paths that lie inside the root (a path outside it is a usage error); symbolic links inside the root count, wherever they point",
         "file names contain blanks and non-ASCII letters but no ': ' sequence",
     ]
     gens = ctx.gen_json("Lint", "Gen_C01.cfg")
